@@ -90,8 +90,20 @@ def outcome(path, mode, base_cols, base_ts_ok):
             with open(path, "rb") as f:
                 tskit.TableCollection.load(f)
                 x = tskit.TableCollection.load(f)
+        elif mode in ("pipe_tc", "pipe_ts"):
+            # a non-seekable stream: the bytes are fed through an OS pipe
+            data = open(path, "rb").read()
+            r, w = os.pipe()
+            with os.fdopen(w, "wb") as wf:
+                wf.write(data)
+            with os.fdopen(r, "rb") as rf:
+                x = tskit.TableCollection.load(rf) if mode == "pipe_tc" else tskit.load(rf)
+            if x is not None and mode == "pipe_ts":
+                x = x.dump_tables()
     except Exception as e:       # any Python exception counts as "raises"; a crash kills the worker instead
         return "raise", type(e).__name__
+    if x is None:
+        return "diff_bad", "load returned None"
     c = cols(x)
     if c == base_cols[mode]:
         return "same", ""
@@ -108,6 +120,22 @@ def outcome(path, mode, base_cols, base_ts_ok):
     except Exception as e:
         ok = False
     diff = sorted(k for k in set(c) | set(base_cols[mode]) if c.get(k) != base_cols[mode].get(k))
+    if ok and mode in ("ts", "pipe_ts"):
+        # what tskit.load returned must satisfy every validity requirement: its tables must load again under a
+        # freshly built index and describe the same trees as the loaded object did
+        try:
+            ts1 = x.tree_sequence()
+            t2 = x.copy()
+            t2.drop_index()
+            t2.build_index()
+            ts2 = t2.tree_sequence()
+            if ts1.num_trees != ts2.num_trees or any(
+                    list(a.parent_array) != list(b.parent_array) or a.interval != b.interval for a, b in zip(ts1.trees(), ts2.trees())):
+                return "diff_bad", "loaded tree sequence contradicts its own edge table: " + ",".join(diff[:4])
+        except UnicodeDecodeError:
+            pass      # corrupted text (schema / units) that Python cannot decode: not a validity requirement
+        except Exception as e:
+            return "diff_bad", "loaded tree sequence is not valid: %s" % type(e).__name__
     return ("diff_ok" if ok else "diff_bad"), ",".join(diff[:4])
 
 
@@ -128,6 +156,10 @@ def run_faults(item):
         with open(item["path"], "rb") as f:
             tskit.TableCollection.load(f)
             base[m] = cols(tskit.TableCollection.load(f))
+    elif m == "pipe_tc":
+        base[m] = cols(tskit.TableCollection.load(item["path"]))
+    elif m == "pipe_ts":
+        base[m] = cols(tskit.load(item["path"]).dump_tables())
     out = []
     fd, p = tempfile.mkstemp(dir=SHM, suffix=".trees")
     os.close(fd)
@@ -194,9 +226,19 @@ def make_faults(rng, data, lay, quick):
             if v != it["type"]:
                 faults.append(dict(t="field", kind="type", j=j, v=v, bytes=[[base, v]]))
     for v in (0, n - 1, n + 1, 1 << 31):
-        faults.append(dict(t="field", kind="nitems", j=0, v=min(v, 1 << 30), bytes=[[12 + i, (v >> (8 * i)) & 0xFF] for i in range(4)]))
+        faults.append(dict(t="field", kind="nitems", j=0, v=min(v, 1 << 24), bytes=[[12 + i, (v >> (8 * i)) & 0xFF] for i in range(4)]))
     for v in (0, 63, 64, size - 1, size + 1, size + 8, M, 1 << 63):
         faults.append(dict(t="field", kind="fsize", j=0, v=limbs(v), bytes=field_bytes(16, v)))
+    # (d') targeted data faults: exchange two adjacent elements of every array with >= 2 multi-byte elements
+    for it in lay["items"]:
+        tsz = {0: 1, 1: 1, 2: 2, 3: 2, 4: 4, 5: 4, 8: 4, 6: 8, 7: 8, 9: 8}[it["type"]]
+        if tsz >= 4 and it["al"] >= 2:
+            for q in range(min(it["al"] - 1, (40 if it["key"].startswith("indexes/") else 6) if quick else 60)):
+                o1 = it["as"] + q * tsz
+                a1 = data[o1:o1 + tsz]
+                a2 = data[o1 + tsz:o1 + 2 * tsz]
+                if a1 != a2:
+                    faults.append(dict(t="byte", off=o1, bytes=[[o1 + i, a2[i]] for i in range(tsz)] + [[o1 + tsz + i, a1[i]] for i in range(tsz)]))
     # (d) random substitutions in the data region
     for _ in range(150 if quick else 2000):
         off = rng.randrange(keys_end, size)
@@ -220,17 +262,27 @@ def run():
     tmp = tempfile.mkdtemp(prefix="c10_", dir=SHM)
     try:
         files = []
-        nfiles = 2 if QUICK else 12
+        nfiles = 3 if QUICK else 14
         k = 0
         while len(files) < nfiles:
-            t, valid = c05.random_collection(rng, valid=True)
+            if len(files) == 1:
+                # a hand-made tree sequence with missing data to the right (sample 2 leaves the tree at 5) and a
+                # site layer: the shape on which a stale edge-removal index goes unnoticed by a weakened gate
+                t = gen.build_tables(dict(L=10, time=[0, 0, 0, 1, 2], flags=[1, 1, 1, 0, 0],
+                                          edges=[dict(left=0, right=10, parent=3, child=0), dict(left=0, right=10, parent=3, child=1),
+                                                 dict(left=0, right=5, parent=4, child=2), dict(left=0, right=10, parent=4, child=3)],
+                                          sites=[dict(pos=2, anc=0), dict(pos=7, anc=1)],
+                                          muts=[dict(site=0, node=3, der=1, parent=-1, time=-1), dict(site=1, node=2, der=0, parent=-1, time=-1)]))
+                valid = True
+            else:
+                t, valid = c05.random_collection(rng, valid=True)
             if not t.has_index():
                 t.build_index()
             if len(t.nodes) < 2:
                 continue
             path = os.path.join(tmp, "f%d.trees" % k)
             k += 1
-            mode = ["tc", "ts", "skip_tables", "skip_ref", "second"][len(files) % 5] if not QUICK else ["tc", "ts"][len(files) % 2]
+            mode = ["tc", "ts", "skip_tables", "skip_ref", "second", "pipe_tc", "pipe_ts"][len(files) % 7] if not QUICK else ["tc", "ts", "pipe_ts"][len(files) % 3]
             if not QUICK and len(files) < 2:
                 mode = ["tc", "ts"][len(files)]
             base_off = 0
@@ -245,6 +297,9 @@ def run():
             data = open(path, "rb").read()[base_off:]
             lay = parse(data)
             faults = make_faults(rng, data, lay, QUICK)
+            if mode in ("pipe_tc", "pipe_ts"):
+                # non-seekable streams: prefixes (every 7th length in quick mode) and header / descriptor bytes
+                faults = [f for f in faults if (f["t"] == "prefix" and (not QUICK or f["len"] % 7 == 0)) or (f["t"] == "byte" and f["off"] < 64 + 64 * lay["nitems"] and len(f["bytes"]) == 1 and f["bytes"][0][1] in (0, 255))]
             if mode in ("skip_tables", "skip_ref", "second") :
                 # the lazy / partial read paths: prefixes and descriptor/key bytes only
                 faults = [f for f in faults if f["t"] != "byte" or f["off"] < lay["items"][-1]["ks"] + lay["items"][-1]["kl"]]
@@ -321,7 +376,7 @@ def run():
                 i, cl = name.split(":", 1)
                 bad[int(i)] = cl
             else:
-                bad[-1] = name
+                raise common.MachineryError("Trace_Kastore could not evaluate a case: %s %s" % (name, st["eval_errors"].get(c["id"], "")[-1500:]))
         for i, d in enumerate(c["faults"]):
             ft = f["faults"][c["start"] + i]
             o = f["out"][c["start"] + i]
